@@ -84,7 +84,27 @@ def _walk(rng, conn, s, maxlen):
     return p
 
 
+def _snake(n):
+    """boustrophedon Hamiltonian path (harness-built): the only s-e path visits all n*n cells"""
+    conn = np.zeros((2, n, n), dtype=bool)
+    conn[1, :, :-1] = True
+    for i in range(n - 1):
+        conn[0, i, (n - 1) if i % 2 == 0 else 0] = True
+    return conn
+
+
+def _far_ends(conn):
+    """two cells far apart (double BFS): the ends of a longest path when the graph is a tree"""
+    d = mz.bfs(conn, (0, 0))
+    a = max(d, key=lambda c: (d[c], c))
+    d2 = mz.bfs(conn, a)
+    b = max(d2, key=lambda c: (d2[c], c))
+    return a, b
+
+
 def _gen_conn(rng, gen, n):
+    if gen == "snake":
+        return _snake(n)
     from maze_dataset.generation import LatticeMazeGenerators as G
 
     np.random.seed(int(rng.integers(0, 2**31)))
@@ -123,6 +143,18 @@ def _make_maze(conn, kind, s, e, sol):
     return mz.SolvedMaze(connection_list=conn, solution=np.array(sol))
 
 
+def _transposed(m):
+    """the maze mirrored at the diagonal (rows <-> columns): same size, kind and token count, different content"""
+    c = np.asarray(m.connection_list)
+    conn = np.stack([c[1].T, c[0].T])
+    sw = lambda p: (int(p[1]), int(p[0]))
+    if isinstance(m, mz.SolvedMaze):
+        return _make_maze(conn, "SolvedMaze", None, None, [sw(p) for p in m.solution])
+    if isinstance(m, mz.TargetedLatticeMaze):
+        return _make_maze(conn, "TargetedLatticeMaze", sw(m.start_pos), sw(m.end_pos), None)
+    return _make_maze(conn, "LatticeMaze", None, None, None)
+
+
 def build_maze(job):
     """job -> (maze object, effective kind).  Deterministic in the job."""
     rng = np.random.default_rng(job["seed"])
@@ -131,7 +163,9 @@ def build_maze(job):
     kind = job["kind"]
     s = e = sol = None
     if kind != "LatticeMaze":
-        if job.get("se") in ("same", "adj", "rand"):
+        if job.get("se") == "far":
+            s, e = _far_ends(conn)
+        elif job.get("se") in ("same", "adj", "rand"):
             s, e = _pick_se(rng, conn, job["se"])
         else:
             s, e = tuple(job["se"][0]), tuple(job["se"][1])
@@ -206,27 +240,24 @@ def observe_rt(job):
     return rec
 
 
-def observe_ds(job):
-    from maze_dataset import MazeDataset, MazeDatasetConfig
-
-    mazes = [build_maze(j)[0] for j in job["mazes"]]
-    n = len(mazes)
-    lt, mt, mgs = tokenizers(job["mode"], job["mgs"], job["n"], job["as_enum"])
-    tok = lt if job["via"] == "legacy" else mt
-    rec = dict(t="ds", mode=job["mode"], via=job["via"], mgs=[] if mgs is None else [mgs], n=n, mazes=[mz.proj(x) for x in mazes],
-               limit=[] if job["limit"] is None else [job["limit"]], join=bool(job["join"]), job=json.dumps(job), src="dataset")
-    _reseed(job, 3)
-    rec["perres"], per = mz.outcome(lambda: [_tok_list(x.as_tokens(tok)) for x in mazes])
-    rec["per"] = per or []
+def _ds_call(rec, ds, tok, limit, join, defaults, scramble=False):
+    """one MazeDataset.as_tokens call on the GIVEN dataset / tokenizer objects -> fills rec (copies are logged; with
+    `scramble` the returned object is then emptied in place: a later call must not be affected by what the caller
+    does with an earlier result)"""
 
     def call():
-        ds = MazeDataset(MazeDatasetConfig(name="c07", grid_n=job["n"], n_mazes=n), mazes)
-        if job.get("defaults"):  # limit / join left at their defaults (None / False)
+        if defaults:  # limit / join left at their defaults (None / False)
             return ds.as_tokens(tok)
-        return ds.as_tokens(tok, limit=job["limit"], join_tokens_individual_maze=job["join"])
+        return ds.as_tokens(tok, limit=limit, join_tokens_individual_maze=join)
 
-    _reseed(job, 4)
-    rec["res"], out = mz.outcome(lambda: list(call()))
+    holder = []
+
+    def run():
+        o = call()
+        holder.append(o)
+        return list(o)
+
+    rec["res"], out = mz.outcome(run)
     out = out or []
     if not out:
         shape = "empty"
@@ -245,11 +276,156 @@ def observe_ds(job):
         rec["out"] = [_tok_list(x) for x in out]
     else:
         rec["strs"], rec["out"] = [], []
+    if scramble and holder:
+        o = holder[0]
+        for x in o if isinstance(o, list) else []:
+            if isinstance(x, list):
+                x.clear()
+        if isinstance(o, list):
+            o.clear()
     return rec
 
 
+def _ds_base(job, mazes, mgs, limit, join):
+    return dict(t="ds", mode=job["mode"], via=job["via"], mgs=[] if mgs is None else [mgs], n=len(mazes), mazes=[mz.proj(x) for x in mazes],
+                limit=[] if limit is None else [limit], join=bool(join), src=job["src"])
+
+
+def observe_ds(job):
+    from maze_dataset import MazeDataset, MazeDatasetConfig
+
+    mazes = [build_maze(j)[0] for j in job["mazes"]]
+    lt, mt, mgs = tokenizers(job["mode"], job["mgs"], job["n"], job["as_enum"])
+    tok = lt if job["via"] == "legacy" else mt
+    rec = _ds_base(job, mazes, mgs, job["limit"], job["join"])
+    rec["job"] = json.dumps(job)
+    _reseed(job, 3)
+    rec["perres"], per = mz.outcome(lambda: [_tok_list(x.as_tokens(tok)) for x in mazes])
+    rec["per"] = per or []
+    _reseed(job, 4)
+    rec["res"], ds = mz.outcome(lambda: MazeDataset(MazeDatasetConfig(name="c07", grid_n=job["n"], n_mazes=len(mazes)), mazes))
+    if rec["res"] != "ok":
+        rec.update(shape="empty", strs=[], out=[])
+        return rec
+    return _ds_call(rec, ds, tok, job["limit"], job["join"], job.get("defaults"))
+
+
+# ------------------------------------------------------------------ histories (audit class A): state must not matter
+def _session_ds(job):
+    """ONE dataset object and ONE tokenizer object, as_tokens called repeatedly with different limit / join in the
+    given order (larger then smaller, with then without join, A-B-A); every call is an ordinary "ds" record.  The
+    result of each call is emptied in place by the caller before the next call."""
+    from maze_dataset import MazeDataset, MazeDatasetConfig
+
+    mazes = [build_maze(j)[0] for j in job["mazes"]]
+    lt, mt, mgs = tokenizers(job["mode"], job["mgs"], job["n"], False)
+    tok = lt if job["via"] == "legacy" else mt
+    _reseed(job, 3)
+    perres, per = mz.outcome(lambda: [_tok_list(x.as_tokens(tok)) for x in mazes])
+    res0, ds = mz.outcome(lambda: MazeDataset(MazeDatasetConfig(name="c07", grid_n=job["n"], n_mazes=len(mazes)), mazes))
+    out = []
+    for k, (limit, join) in enumerate(job["calls"]):
+        rec = _ds_base(job, mazes, mgs, limit, join)
+        rec.update(perres=perres, per=per or [], job=json.dumps(dict(job, pick=k)), call=k)
+        if res0 != "ok":
+            rec.update(res=res0, shape="empty", strs=[], out=[])
+        else:
+            _reseed(job, 10 + k)
+            _ds_call(rec, ds, tok, limit, join, False, scramble=True)
+        out.append(rec)
+    return out
+
+
+def _session_tok(job):
+    """ONE legacy tokenizer object and ONE modular tokenizer object used for mazes of different sizes / kinds in the
+    given order (decreasing, scrambled, A-B-A); between observations the objects are USED (vocabulary properties,
+    encode/decode).  Per maze an ordinary "rt" record:
+      * as_tokens is called twice; the first result is emptied in place by the caller, the second one is logged;
+      * from_tokens is called twice on the SAME list object (and twice on the same string), the second result is logged;
+      * then the list objects are overwritten in place with the PREVIOUS maze's tokens and parsed again: a second
+        "rt" record for the previous maze (src = history-modified-list)."""
+    n_max = max(j["n"] for j in job["mazes"])
+    lt, mt, mgs = tokenizers(job["mode"], "none" if job["mgs"] == "none" else "n", n_max, False)
+    out = []
+    prev = None
+    for k, mj in enumerate(job["mazes"]):
+        m, kind = build_maze(mj)
+        if mgs is not None:  # legitimate use of the tokenizer objects between observations
+            mz.outcome(lambda: (len(lt.token_arr), len(lt.tokenizer_map), lt.vocab_size, lt.padding_token_index))
+        mz.outcome(lambda: (len(mt.token_arr), mt.vocab_size, mt.is_legacy_equivalent(), mt.name, hash(mt)))
+        rec = dict(t="rt", mode=job["mode"], mgs=[] if mgs is None else [mgs], maze=mz.proj(m), src="history", job=json.dumps(dict(job, pick=len(out))))
+        toks = {}
+        for via, tok, salt in (("legacy", lt, 1), ("modular", mt, 2)):
+            _reseed(mj, salt)
+            r0, first = mz.outcome(lambda: m.as_tokens(tok))
+            if r0 == "ok" and isinstance(first, list):
+                first.clear()  # the caller may do what it likes with a returned list
+            _reseed(mj, salt + 2)
+            res, t2 = mz.outcome(lambda: _tok_list(m.as_tokens(tok)))
+            toks[via] = (res, t2 or [])
+            if res == "ok" and mgs is not None:
+                mz.outcome(lambda: tok.decode(tok.encode(t2)))
+        rec["resL"], rec["tokL"] = toks["legacy"]
+        rec["resM"], rec["tokM"] = toks["modular"]
+        cls = [mz.LatticeMaze, mz.TargetedLatticeMaze, mz.SolvedMaze][(KINDS.index(kind) + k) % 3]
+        rec["cls"] = cls.__name__
+        rp, objs = [], {}
+        for via, tok in (("legacy", lt), ("modular", mt)):
+            res, tk = toks[via]
+            if res != "ok":
+                continue
+            L = list(tk)
+            S = " ".join(tk)
+            objs[via] = L
+            for inp, arg in (("list", L), ("str", S)):
+                mz.outcome(lambda: cls.from_tokens(arg, tok))
+                r2, y = mz.outcome(lambda: _proj_safe(cls.from_tokens(arg, tok)))
+                rp.append(dict(via=via, inp=inp, res=r2, maze=y if r2 == "ok" else EMPTY_MAZE))
+        rec["rp"] = rp
+        out.append(rec)
+        if prev is not None and prev["resL"] == "ok" and prev["resM"] == "ok" and len(objs) == 2:
+            rec2 = dict(t="rt", mode=job["mode"], mgs=rec["mgs"], maze=prev["maze"], src="history-modified-list", cls=cls.__name__,
+                        resL="ok", resM="ok", job=json.dumps(dict(job, pick=len(out))))
+            rp2 = []
+            for via, tok, key in (("legacy", lt, "tokL"), ("modular", mt, "tokM")):
+                L = objs[via]
+                L[:] = prev[key]  # same list object, new content
+                r2, y = mz.outcome(lambda: _proj_safe(cls.from_tokens(L, tok)))
+                rp2.append(dict(via=via, inp="list", res=r2, maze=y if r2 == "ok" else EMPTY_MAZE))
+                r2, y = mz.outcome(lambda: _proj_safe(cls.from_tokens(" ".join(L), tok)))
+                rp2.append(dict(via=via, inp="str", res=r2, maze=y if r2 == "ok" else EMPTY_MAZE))
+                rec2[key] = _tok_list(L)
+            rec2["rp"] = rp2
+            out.append(rec2)
+        # same list objects once more, overwritten with tokens of the SAME LENGTH and kind: the transposed maze
+        if rec["resL"] == "ok" and rec["resM"] == "ok" and len(objs) == 2:
+            mT = _transposed(m)
+            rec3 = dict(t="rt", mode=job["mode"], mgs=rec["mgs"], maze=mz.proj(mT), src="history-modified-list", cls=cls.__name__,
+                        job=json.dumps(dict(job, pick=len(out))))
+            rp3 = []
+            for via, tok, key, rk in (("legacy", lt, "tokL", "resL"), ("modular", mt, "tokM", "resM")):
+                _reseed(mj, 7)
+                rec3[rk], tT = mz.outcome(lambda: _tok_list(mT.as_tokens(tok)))
+                rec3[key] = tT or []
+                if rec3[rk] != "ok":
+                    continue
+                L = objs[via]
+                L[:] = tT
+                r2, y = mz.outcome(lambda: _proj_safe(cls.from_tokens(L, tok)))
+                rp3.append(dict(via=via, inp="list", res=r2, maze=y if r2 == "ok" else EMPTY_MAZE))
+                r2, y = mz.outcome(lambda: _proj_safe(cls.from_tokens(" ".join(L), tok)))
+                rp3.append(dict(via=via, inp="str", res=r2, maze=y if r2 == "ok" else EMPTY_MAZE))
+            rec3["rp"] = rp3
+            out.append(rec3)
+        prev = rec
+    return out
+
+
 def observe(job):
-    return observe_ds(job) if job["t"] == "ds" else observe_rt(job)
+    """-> list of records (a session yields several)"""
+    if job["t"] == "session":
+        return _session_tok(job) if job["what"] == "tok" else _session_ds(job)
+    return [observe_ds(job) if job["t"] == "ds" else observe_rt(job)]
 
 
 # ------------------------------------------------------------------ case enumeration
@@ -360,6 +536,60 @@ def jobs_dataset(seed, count):
         limit = [None, 0, 1, nm, nm + 3, max(nm - 1, 0)][k % 6]
         jobs.append(dict(t="ds", src="dataset", n=n, mode=MODES[(k // 6) % 3], mgs=MGS[(k // 18) % 3], as_enum=k % 4 == 1, via=["legacy", "modular"][(k // 2) % 2],
                          limit=limit, join=(k // 3) % 2 == 1, defaults=(limit is None and (k // 3) % 2 == 0 and k % 12 == 0), seed=[seed, 5, k], mazes=mazes))
+    return jobs
+
+
+def jobs_history(seed, thorough):
+    """audit class A: tokenizer / dataset OBJECTS reused across differently sized inputs and options"""
+    jobs = []
+    orders = [[20, 16, 12, 11, 7, 3, 2], [3, 20, 2, 16, 11, 5, 12], [4, 16, 4, 16], [2, 5, 11, 17]]  # decreasing, scrambled, A-B-A, increasing
+    gens = ["dfs", "dfs_perc", "snake"]
+    k = 0
+    for rep in range(3 if thorough else 1):
+        for mi, mode in enumerate(MODES):
+            for gi, mgs in enumerate(("none", "max")):
+                for oi, order in enumerate(orders):
+                    if not thorough and (oi + mi + gi) % 2 == 1:
+                        continue
+                    k += 1
+                    mazes = [_rt_job("history", n, "", "", KINDS[(i + k) % 3], (seed, 6, k, i), gen=gens[(i + k) % 3], se=["rand", "far", "adj", "same"][(i + k) % 4]) for i, n in enumerate(order)]
+                    jobs.append(dict(t="session", what="tok", src="history", n=max(order), mode=mode, mgs=mgs, seed=[seed, 6, k], mazes=mazes))
+    small_calls = [(None, False), (7, False), (4, True), (1, True), (0, False), (3, True), (None, True), (2, False), (4, False), (1, True), (None, False), (7, False)]
+    for mi, mode in enumerate(MODES):
+        for vi, via in enumerate(("legacy", "modular")):
+            k += 1
+            calls = small_calls if (mi + vi) % 2 == 0 else small_calls[::-1]
+            mazes = [_rt_job("history-dataset", 3 + mi, "", "", "SolvedMaze", (seed, 7, k, i), gen=gens[(i + k) % 2], se=["rand", "far", "adj", "same"][i]) for i in range(4)]
+            jobs.append(dict(t="session", what="ds", src="history-dataset", n=3 + mi, mode=mode, mgs="none", via=via, seed=[seed, 7, k], mazes=mazes, calls=calls))
+    # dataset sizes / limits around 100, 128 and 256 on one dataset object, larger limits first
+    bigs = [(130, [(129, False), (128, True), (127, False), (None, True), (100, False), (101, True), (0, False)]), (260, [(257, False), (256, False), (255, True), (None, False), (128, True)])]
+    for bi, (nm, calls) in enumerate(bigs if thorough else bigs[:1] + [(260, bigs[1][1][:3])]):
+        k += 1
+        mazes = [_rt_job("history-dataset", 2 + i % 2, "", "", "SolvedMaze", (seed, 8, k, i), gen="dfs", se=["rand", "adj", "same"][i % 3]) for i in range(nm)]
+        jobs.append(dict(t="session", what="ds", src="history-dataset", n=3, mode=MODES[(bi + 1) % 3], mgs="none", via=["modular", "legacy"][bi % 2], seed=[seed, 8, k], mazes=mazes, calls=calls))
+    return jobs
+
+
+def jobs_magnitude(seed, thorough):
+    """audit class B: quantities crossing 127/128 and 255/256 - cells (12x12 = 144, 16x16 = 256), solution length
+    (snake mazes: 144, 256, 400 cells; longest path of a 16x16 / 20x20 dfs tree), and the largest grid the fixed
+    vocabulary holds unique coordinate tokens for (50x50; 2500-cell solution).  Beyond the statement's "grid 2..20"
+    only in the 50x50 cases, which the unchanged tree passes."""
+    jobs = []
+    k = 0
+    for n in (12, 16, 20):
+        for mi, mode in enumerate(MODES):
+            k += 1
+            jobs.append(_rt_job("magnitude", n, mode, MGS[(mi + n) % 3], "SolvedMaze", (seed, 9, k), gen="snake", se="far", clsrot=k % 3))
+            k += 1
+            jobs.append(_rt_job("magnitude", n, mode, MGS[(mi + n + 1) % 3], "SolvedMaze", (seed, 9, k), gen="dfs", se="far", clsrot=k % 3))
+    for mi, mode in enumerate(MODES):
+        k += 1
+        jobs.append(_rt_job("magnitude", 16, mode, "none", KINDS[mi % 2], (seed, 9, k), gen="dfs_perc", se=None if mi % 2 == 0 else "far"))
+    big = [("AOTP_UT_uniform", "SolvedMaze", "snake"), ("AOTP_UT_rasterized", "SolvedMaze", "dfs"), ("AOTP_CTT_indexed", "TargetedLatticeMaze", "dfs")]
+    for mode, kind, gen in big if thorough else big[::2]:
+        k += 1
+        jobs.append(_rt_job("magnitude", 50, mode, "n", kind, (seed, 9, k), gen=gen, se="far"))
     return jobs
 
 
@@ -645,7 +875,7 @@ def main(chk: lib.Check) -> int:
         "exhaustive: every premise-satisfying graph of 2x2 x all kinds x all (start,end) x 3 modes x {None,n,20}; every spanning tree of 3x3 "
         "(thorough: x all 81 (start,end)); 3x3 graphs with cycles/components (thorough: all 4096 filtered by the premise); seeded random "
         "gen_dfs / gen_wilson / gen_dfs_percolation mazes of grid 2..20 (multi-digit indices, two-cell and one-cell paths, non-shortest walks); "
-        "datasets of 1..4 solved mazes x limit in {None,0,1,n,n+3,n-1} x join x legacy/modular; "
+        "datasets of 1..4 solved mazes x limit in {None,0,1,n,n+3,n-1} x join x legacy/modular; histories on shared tokenizer / dataset / list objects; magnitude cases (144/256/400/2500-cell solutions, 16x16, 50x50, datasets of 130/260 with limits around 128/256); "
         "non-trivial = >= 2 adjacency entries and (solved => path of >= 2 cells); datasets: >= 2 mazes"
     )
     ex, futs = _design(thorough)
@@ -654,12 +884,15 @@ def main(chk: lib.Check) -> int:
         n_exh = len(jobs)
         jobs += jobs_random(chk.seed, 6000 if thorough else 700)
         jobs += jobs_dataset(chk.seed, 1500 if thorough else 240)
+        jobs += jobs_history(chk.seed, thorough)
+        jobs += jobs_magnitude(chk.seed, thorough)
         # big mazes first so that the pool does not end on a straggler
-        order = sorted(range(len(jobs)), key=lambda i: -jobs[i]["n"])
-        recs_o = lib.pmap(observe, [jobs[i] for i in order], chunksize=4)
-        recs = [None] * len(jobs)
+        order = sorted(range(len(jobs)), key=lambda i: -jobs[i]["n"] * (8 if jobs[i]["t"] == "session" else 1))
+        recs_o = lib.pmap(observe, [jobs[i] for i in order], chunksize=2)
+        by_job = [None] * len(jobs)
         for i, r in zip(order, recs_o):
-            recs[i] = r
+            by_job[i] = r
+        recs = [x for sub in by_job for x in sub]
         canaries, bases = _canaries()
         what = "raw token streams (legacy + modular equivalent), four re-parses, dataset outputs judged against TokLegacy: round trip, Equivalent, DatasetOK; Layer M: InEmit / spec Parse"
         res = _judge(chk, recs, canaries, bases, label="tok", what=what)
@@ -674,6 +907,11 @@ def main(chk: lib.Check) -> int:
         chk.notes["records_by_mode"] = {m: sum(1 for x in recs if x["mode"] == m) for m in MODES}
         chk.notes["records_by_kind"] = {k: sum(1 for x in rts if x["maze"]["kind"] == k) for k in KINDS}
         chk.notes["max_grid"] = max(x["maze"]["R"] for x in rts)
+        chk.notes["max_solution_cells"] = max(len(x["maze"]["sol"]) for x in rts)
+        chk.notes["solutions_ge_128_cells"] = sum(1 for x in rts if len(x["maze"]["sol"]) >= 128)
+        chk.notes["solutions_ge_256_cells"] = sum(1 for x in rts if len(x["maze"]["sol"]) >= 256)
+        chk.notes["max_dataset_size"] = max(x["n"] for x in recs if x["t"] == "ds")
+        chk.notes["history"] = "ONE legacy + ONE modular tokenizer object over mazes of decreasing / scrambled / A-B-A / increasing sizes (used via vocabulary properties and encode/decode in between); as_tokens twice (first result emptied by the caller); from_tokens twice on the same list object and again after the list was overwritten in place; ONE dataset object with as_tokens under different limit/join, larger first, results emptied by the caller"
         chk.notes["multi_digit_records"] = sum(1 for x in rts if x["maze"]["R"] > 10)
         chk.notes["one_cell_paths"] = sum(1 for x in rts if len(x["maze"]["sol"]) == 1)
         chk.notes["two_cell_paths"] = sum(1 for x in rts if len(x["maze"]["sol"]) == 2)
@@ -697,8 +935,8 @@ def main(chk: lib.Check) -> int:
         ex.shutdown(wait=False, cancel_futures=True)
     chk.assumptions = [
         "TLC, CommunityModules JSON reader, CPython/numpy",
-        "coordinate strings are decoded in TLA+ by table lookup over indices < 24 (TLC cannot look inside strings); joined strings are split on blanks by the harness and re-joined + compared in TLA+",
-        "only square mazes are judged (from_tokens builds a square grid; statement quantifies over grid sizes 2..20)",
+        "coordinate strings are decoded in TLA+ by table lookup over indices < 50 (TLC cannot look inside strings); joined strings are split on blanks by the harness and re-joined + compared in TLA+",
+        "only square mazes are judged (from_tokens builds a square grid; statement quantifies over grid sizes 2..20); the 50x50 magnitude cases lie beyond that quantifier (largest grid with unique coordinate tokens in the fixed vocabulary) and are judged all the same",
         "mazes beyond 3x3 are seeded samples of the generators, not exhaustive; the as_tokens shuffle is driven by seeded numpy/random state",
     ]
     from harness.checks import tokutils_common
@@ -712,7 +950,8 @@ def main(chk: lib.Check) -> int:
 def replay(path: str) -> int:
     d = json.load(open(path))
     case = d["case"]
-    rec = observe(json.loads(case["job"]))  # the job is logged as a JSON string (TLC's reader has no null)
+    job = json.loads(case["job"])  # the job is logged as a JSON string (TLC's reader has no null)
+    rec = observe(job)[job.get("pick", 0)]  # a session is re-run as a whole, the stored step is re-judged
     rec["id"] = 0
     out = lib.oracle(ORACLE, [rec], tag="rp")
     got = [c for c in out.verdicts.get(0, []) if not c.startswith("M:")]
